@@ -247,6 +247,38 @@ def main():
             out["cfg/%s/static-first" % lib] = sha(lambda: ufo2ft.compileTTF(fonts2[0], ftConfig={LEVEL: 9}))
             out["cfg/%s/vcff2-first" % lib] = sha(lambda: ufo2ft.compileVariableCFF2(ds2, ftConfig={LEVEL: 9}))
             out["cfg/%s/static-uncompacted" % lib] = sha(lambda: ufo2ft.compileTTF(kern_family(lib)[1][0]))
+        # the same FILTER and FEATURE-WRITER objects (what a build script keeps in a list) handed to the compile of one font and
+        # then to the compile of ANOTHER font whose metrics differ: the second font comes out as with fresh objects
+        def objs():
+            from ufo2ft.filters.transformations import TransformationsFilter
+            from ufo2ft.filters.propagateAnchors import PropagateAnchorsFilter
+            from ufo2ft.filters.flattenComponents import FlattenComponentsFilter
+            from ufo2ft.filters.sortContours import SortContoursFilter
+            from ufo2ft.filters.decomposeTransformedComponents import DecomposeTransformedComponentsFilter
+            from ufo2ft.featureWriters import KernFeatureWriter, MarkFeatureWriter, GdefFeatureWriter, CursFeatureWriter
+            return ([PropagateAnchorsFilter(pre=True), DecomposeTransformedComponentsFilter(pre=True), ...,
+                     TransformationsFilter(Origin=0, ScaleX=90, ScaleY=80, Slant=10), TransformationsFilter(Origin=2, ScaleY=110, OffsetY=5),
+                     FlattenComponentsFilter(), SortContoursFilter()],
+                    [CursFeatureWriter(), KernFeatureWriter(), MarkFeatureWriter(), GdefFeatureWriter()])
+        def other_font(k):
+            sq = lambda x, y, d: [[(Fr(x), Fr(y), "line"), (Fr(x + d), Fr(y), "line"), (Fr(x + d), Fr(y + d), "line"), (Fr(x), Fr(y + d), "line")]]
+            gl = [{"name": "H", "unicodes": [0x48], "width": 600 + 20 * k, "contours": sq(50, 0, 500 + 30 * k), "components": [], "anchors": [("top", Fr(300), Fr(700 - 50 * k))]},
+                  {"name": "x", "unicodes": [0x78], "width": 500, "contours": sq(40, 0, 400), "components": [], "anchors": [("top", Fr(250), Fr(500))]},
+                  {"name": "acutecomb", "unicodes": [0x301], "width": 0, "contours": sq(-40, 550, 80), "components": [], "anchors": [("_top", Fr(0), Fr(540 + 10 * k))]},
+                  {"name": "Hacute", "unicodes": [0x124], "width": 600, "contours": [], "anchors": [],
+                   "components": [("H", (1, 0, 0, 1, 0, 0)), ("acutecomb", (Fr(3, 4), 0, 0, Fr(3, 4), 300, 180 - 20 * k))]},
+                  {"name": "HH", "unicodes": [], "width": 1200, "contours": [], "anchors": [],
+                   "components": [("Hacute", (1, 0, 0, 1, 0, 0)), ("H", (1, 0, 0, 1, 620, 0))]}]
+            return {"glyphs": gl, "glyphOrder": [g["name"] for g in gl], "kerning": {("H", "x"): Fr(-20 - 5 * k)}, "groups": {}, "lib": {}, "features": "",
+                    "info": {"familyName": "Obj", "styleName": "F%d" % k, "unitsPerEm": 1000, "ascender": 800, "descender": -200,
+                             "capHeight": 700 - 50 * k, "xHeight": 500 - 40 * k}}
+        for lib in ("ufoLib2", "defcon"):
+            for fl, comp in (("ttf", ufo2ft.compileTTF), ("otf", ufo2ft.compileOTF)):
+                flt, wr = objs()
+                sha(lambda: comp(build_font(other_font(0), lib), filters=flt, featureWriters=wr))
+                out["fobj/%s/%s-after-other-font" % (lib, fl)] = sha(lambda: comp(build_font(other_font(1), lib), filters=flt, featureWriters=wr))
+                flt2, wr2 = objs()
+                out["fobj/%s/%s-fresh-objects" % (lib, fl)] = sha(lambda: comp(build_font(other_font(1), lib), filters=flt2, featureWriters=wr2))
         # fixtures
         data = os.path.join(os.environ.get("UFO2FT_REPO", "/repo"), "tests", "data")
         for name in (["TestFont.ufo", "TestMathFont-Regular.ufo", "ContextualAnchorsTest-Regular.ufo", "ColorTest.ufo", "MultipleAnchorClasses.ufo",
